@@ -17,7 +17,7 @@ from gen import c07sm as G
 sys.setrecursionlimit(20000)
 
 PROP = "C07"
-SM_FILES = ["StaticMap.v", "ProofsSM.v", "ProofsSMTotal.v", "ProofsSMFaith.v", "ProofsSMRT.v", "PropertiesSM.v", "ExtractSM.v"]
+SM_FILES = ["StaticMap.v", "ProofsSM.v", "ProofsSMTotal.v", "ProofsSMFaith.v", "ProofsSMRT.v", "ProofsSMRound.v", "ProofsSMWrite.v", "PropertiesSM.v", "ExtractSM.v"]
 
 
 def coq_build_sm(timeout=1500):
